@@ -118,6 +118,9 @@ func main() {
 		rep.Findings = append(rep.Findings, sf)
 	}
 	rep.WallS = time.Since(start).Seconds()
+	if se, ok := e.(StatsEngine); ok {
+		rep.EngineStats = se.Stats()
+	}
 	if *out != "" {
 		writeJSON(*out, rep)
 	}
